@@ -30,6 +30,12 @@ func init() {
 		{Name: "writeto-emits-constant-frame", Rule: "R16.5", Where: "(*PingResp).WriteTo", Edits: []Edit{{"pingresp.go", "\tb := make([]byte, p.width())\n\tp.fill(b, 0)\n\tn, err := w.Write(b)", "\tn, err := w.Write([]byte{PINGRESP, 0})"}}},
 		{Name: "empty-frame-shortcut-forgets-auth", Rule: "R16.1", Where: "0xf0", Edits: []Edit{{"packet.go", "\tif f.remainingLen == 0 {\n\t\treturn p, nil\n\t}", "\tif f.remainingLen == 0 && byte(f.fixed)&0xf0 != AUTH {\n\t\treturn p, nil\n\t}"}}},
 		{Name: "dispatch-through-constructors-with-header-store", Silent: true, Edits: []Edit{{"packet.go", "\t\tp = &PingReq{fixed: f.fixed}", "\t\tq := NewPingReq()\n\t\tq.fixed = f.fixed\n\t\tp = q"}}},
+		{Name: "encoder-normalises-reserved-bits-in-an-encode-only-primitive", Rule: "R16.1", Where: "0x60", Edits: []Edit{
+			{"pubrel.go", "\ti += p.fixed.fill(b, i)      // firstByte header", "\ti += firstByte(p.fixed).fill(b, i) // firstByte header"},
+			{"wiretypes.go", "// fillOpt fills the bits if > 0", "func (f firstByte) fill(data []byte, i int) int {\n\tv := byte(f)&0xf0 | 2\n\tif len(data) >= i+1 {\n\t\tdata[i] = v\n\t}\n\treturn 1\n}\n\nfunc (f firstByte) width() int { return 1 }\n\n// fillOpt fills the bits if > 0"}}},
+		{Name: "first-byte-through-an-identity-encode-only-primitive", Silent: true, Edits: []Edit{
+			{"pubrel.go", "\ti += p.fixed.fill(b, i)      // firstByte header", "\ti += firstByte(p.fixed).fill(b, i) // firstByte header"},
+			{"wiretypes.go", "// fillOpt fills the bits if > 0", "func (f firstByte) fill(data []byte, i int) int {\n\tif len(data) >= i+1 {\n\t\tdata[i] = byte(f)\n\t}\n\treturn 1\n}\n\nfunc (f firstByte) width() int { return 1 }\n\n// fillOpt fills the bits if > 0"}}},
 		{Name: "switch-as-if-chain", Silent: true, Edits: []Edit{{"packet.go", "\tcase PINGREQ:\n\t\tp = &PingReq{fixed: f.fixed}\n\n\tcase PINGRESP:\n\t\tp = &PingResp{fixed: f.fixed}\n", "\tcase PINGRESP:\n\t\tp = &PingResp{fixed: f.fixed}\n\n\tcase PINGREQ:\n\t\tp = &PingReq{fixed: f.fixed}\n"}}},
 	}})
 }
@@ -61,6 +67,31 @@ func (p *Prog) firstEmissionField(fill *ssa.Function) (int, bool) {
 		return 0, false
 	}
 	return fa.Field, true
+}
+
+// firstEmissionCallee: the function that makes fn's emission at the entry offset (through plain helpers).
+func (p *Prog) firstEmissionCallee(fn *ssa.Function, depth int) *ssa.Function {
+	if depth > 3 {
+		return nil
+	}
+	_, off, ems, _ := emissionsOf(p, fn)
+	for _, e := range ems {
+		if e.offset != ssa.Value(off) {
+			continue
+		}
+		sc := e.call.Call.StaticCallee()
+		if sc == nil {
+			return nil
+		}
+		if sc.Signature.Recv() == nil && sc.Parent() == nil && fillBufIndex(sc) >= 0 {
+			if buf, _, _, _ := emissionsOf(p, sc); buf != nil && writesBufferDirectly(sc, buf) {
+				return sc
+			}
+			return p.firstEmissionCallee(sc, depth+1)
+		}
+		return sc
+	}
+	return nil
 }
 
 // firstEmissionValue: the value (in fn's own terms) whose encoding fn emits at its entry offset.  When that
@@ -150,6 +181,20 @@ func checkC16(p *Prog, c *Check) {
 			}
 			if hf != ef {
 				c.Bad("R16.1", cons, pos, tn+"'s encoder emits a field first that is not the one its constructor puts the type code in")
+				continue
+			}
+			// … and the primitive making that first emission writes the byte it is given, unchanged
+			if w := p.firstEmissionCallee(fill, 0); w == nil {
+				c.Unk("R16.1", cons, pos, "cannot identify the function that writes "+tn+"'s first byte")
+				continue
+			} else if buf, _, _, _ := emissionsOf(p, w); buf == nil {
+				c.Unk("R16.1", cons, pos, qname(w)+", which writes "+tn+"'s first byte, has no recognisable buffer parameter")
+				continue
+			} else if n, bad := p.primitiveWritesReceiver(w, buf); bad != "" || n != 1 {
+				if bad == "" {
+					bad = fmt.Sprintf("%d writes into the buffer instead of one", n)
+				}
+				c.Bad("R16.1", cons, pos, "the first byte of a "+tn+" is written by "+qname(w)+", which does not write the byte the packet carries: "+bad)
 				continue
 			}
 		}
